@@ -16,8 +16,10 @@ ASSUMPTIONS = [
     "layer 1 (driver): 1 runtime thread x 2-3 loop iterations {service work; Driver::poll(None)} (or the external-loop "
     "form {flush(); wait on fd; poll(0)}) against 1-2 waking threads; every kernel-facing call inside Driver::poll is "
     "summarised (coverage.summaries); both drivers (io_uring, polling)",
-    "layer 2 (executor): 1-2 remote wakers x the executor loop (2 iterations), cross-thread queue capacity 1-2, symbolic "
-    "initial task state word; Task::run represented by State::unschedule + an abstract poll",
+    "layer 2 (executor): 1-2 remote wakers (of one task or of two tasks) x the executor loop (2 iterations), cross-thread "
+    "queue capacity 1-2, symbolic initial task state word; Task::run represented by State::unschedule + an abstract poll; "
+    "with two wakers the schedules are context-bounded: at most 2 (thorough: 3) preemptive switches, any number of "
+    "non-preemptive ones (the full enumeration for two wakers exceeds 4x10^5 schedules and an hour)",
     "schedules are enumerated exhaustively by DFS within these bounds; data (state words, counters) is symbolic and "
     "decided by z3",
     "outside: block_on's own loop skeleton, compio-compat's event loops, crossbeam's ArrayQueue internals, "
@@ -66,13 +68,14 @@ class Plan:
             return st, fails
         return (name, body, "custom")
 
-    def _exec_check(self, n, cap, iters, same):
+    def _exec_check(self, n, cap, iters, same, pb=None):
         from explore import Stats, Failure
-        name = "exec.remote%d.cap%d.i%d.%s" % (n, cap, iters, "same" if same else "distinct")
+        name = "exec.remote%d.cap%d.i%d.%s%s" % (n, cap, iters, "same" if same else "distinct",
+                                                 "" if pb is None else ".preempt%d" % pb)
 
         def body(sd):
             t0 = time.time()
-            np_, steps, q, bad = self.me.explore_schedules(self.ex, n, cap, iters, same, seed=sd)
+            np_, steps, q, bad = self.me.explore_schedules(self.ex, n, cap, iters, same, seed=sd, preempt_bound=pb)
             st = Stats()
             st.paths, st.queries, st.obligations, st.discharged = np_, steps + q, np_, np_ - (1 if bad else 0)
             st.solver_s = time.time() - t0
@@ -91,10 +94,14 @@ class Plan:
                 cs.append(self._wake_check(wk, kind, 1, 2, init, "flush", tier == "thorough" or kind == "poll"))
             if tier == "thorough":
                 cs.append(self._wake_check(wk, kind, 2, 2, 2, "poll", False))
+        # executor layer: one waker exhaustively; two wakers (same task / two tasks, full queue) under a context bound
         cs.append(self._exec_check(1, 1, 2, True))
+        cs.append(self._exec_check(2, 1, 2, True, 2))
+        cs.append(self._exec_check(2, 1, 2, False, 2))
         if tier == "thorough":
-            cs.append(self._exec_check(2, 1, 2, False))
-            cs.append(self._exec_check(2, 2, 2, True))
+            cs.append(self._exec_check(2, 2, 2, True, 3))
+            cs.append(self._exec_check(2, 1, 2, True, 3))
+            cs.append(self._exec_check(2, 1, 2, False, 3))
         return cs
 
     def encoded(self):
@@ -102,7 +109,8 @@ class Plan:
 
     def bounds(self, tier):
         return {"threads": "1 runtime thread + 1 waker (thorough: 2)", "runtime_loop_iterations": "2-3",
-                "cross_thread_queue_capacity": "1 (thorough: 1-2)", "memory_model": "sequentially consistent"}
+                "cross_thread_queue_capacity": "1 (thorough: 1-2)", "memory_model": "sequentially consistent",
+                "preemption_bound_two_wakers": 2 if tier == "quick" else 3}
 
     def validate(self, tier):
         # the transitions are the real MIR; what is validated natively is the one piece of arithmetic the protocol
